@@ -180,6 +180,9 @@ def theories_for(sc, rng, lens=True):
     if isinstance(sc, Sphere):
         out.append(("Mie", lambda: Mie()))
         out.append(("Mie(False,False)", lambda: Mie(False, False)))
+        # the two options are independent: every combination is a theory a user can ask for
+        out.append(("Mie(True,False)", lambda: Mie(True, False)))
+        out.append(("Mie(False,True)", lambda: Mie(False, True)))
         if np.isscalar(sc.r):
             out.append(("Multisphere", lambda: Multisphere()))
             out.append(("Tmatrix", lambda: Tmatrix()))
@@ -189,6 +192,7 @@ def theories_for(sc, rng, lens=True):
                 out.append(("Lens(Mie)", lambda: Lens(0.8, Mie(False, False), quad_npts_theta=40, quad_npts_phi=40)))
     elif isinstance(sc, Spheres):
         out.append(("Mie", lambda: Mie()))
+        out.append(("Mie(True,False)", lambda: Mie(True, False)))
         if all(np.isscalar(s.r) for s in sc.scatterers):
             out.append(("Multisphere", lambda: Multisphere()))
     elif isinstance(sc, Scatterers):
